@@ -161,7 +161,7 @@ void h_justify(void)
     g_pFirst = pick_slot(); g_pLast = pick_slot(); g_end = pick_slot();
     __CPROVER_assume(g_pFirst && g_pLast && in_order(o0, n0, IDX(g_pFirst)) && in_order(o0, n0, IDX(g_pLast)));
     Slot *f0 = sg.m_first, *l0 = sg.m_last; int8 dir0 = sg.m_dir;
-    float w = 100.0f;
+    float w = nondet_bool() ? 100.0f : -1.0f;          /* a negative width means "just run the justification passes" (early return for fonts without line-end flags) */
     float r = Segment_justify(&sg, sg.m_first, (const Font *)0, w, 0, (Slot *)0, (Slot *)0);
     (void)r;
     __CPROVER_assert(sg.m_first == f0 && sg.m_last == l0, "justify restores the segment's first and last slot");
